@@ -27,7 +27,13 @@ func ellipsis(str []byte, length int) []byte {
 		if len(str) < 3 || length < 3 {
 			return []byte("...")
 		}
-		return append(bytes.TrimSpace(str[0:length-3]), '.', '.', '.')
+		// Append to a copy: `str` belongs to the caller, and appending to a sub-slice of it
+		// would overwrite the bytes that follow.
+		trimmed := bytes.TrimSpace(str[0 : length-3])
+		output := make([]byte, 0, len(trimmed)+3)
+		output = append(output, trimmed...)
+
+		return append(output, '.', '.', '.')
 	}
 
 	return str
